@@ -38,6 +38,9 @@ result (anything under `result.` but `result.test`), not only on the inputs.
 HL-PER-DS - no list of flag columns is built by repeating one non-constant
 array for all the datasets. CLEAR-COMPLETE - every attribute the formatting methods of Rst accumulate is
 reset by Rst.clear() (a re-used Rst formats the second report like the first).
+ZIP-PARALLEL - the operands of every zip() of table_repr.py, followed through
+locals and helper parameters to their origin, are either all re-ordered /
+filtered or none (rows and their marks are paired by position).
 Not decided: validity of the emitted reStructuredText and read-back of the
 cells (docutils is not run); which bins end up in a detailed table
 (value-level selection by np.where).
@@ -63,6 +66,7 @@ def check(ctx):
     ctx.run(marks.check_row_select)
     ctx.run(marks.check_hl_source)
     ctx.run(marks.check_hl_per_dataset)
+    ctx.run(marks.check_zip_parallel)
     ctx.run(reportfs.check_clear_complete)
     ctx.run(patterns.check_patterns, ID)
 
@@ -312,6 +316,34 @@ def _variants(program):
             'verbosity == Verbosity.SUMMARY',
             lambda n: parse_expr('verbosity in (Verbosity.SUMMARY,)'))
     add('twin-guard-as-membership', 'twin', TREPR, guard_in_tuple)
+
+    def _failed_first(both):
+        def editor(tree):
+            fun = find_func(tree, 'repr_testresultstatsbylabels')
+            for node in ast.walk(fun):
+                if isinstance(node, ast.Call) and call_name(node) == \
+                        '_sbl_1colbylabel' and len(node.args) == 3:
+                    if both:
+                        fun.body.insert(1, parse_stmts(
+                            'order = sorted(range(len(result.classify)), '
+                            "key=lambda k: result.classify[k]['KO'] == 0)")[0])
+                        node.args[1] = parse_expr(
+                            '[result.classify[k] for k in order]')
+                        node.args[2] = parse_expr(
+                            '[result.oracles()[k] for k in order]')
+                    else:
+                        node.args[1] = parse_expr(
+                            'sorted(result.classify, '
+                            "key=lambda categ: categ['KO'] == 0)")
+                    return True
+            return False
+        return editor
+    add('seed-failed-categories-first-but-not-their-oracles', 'mutant',
+        TREPR, _failed_first(False), {'ZIP-PARALLEL'},
+        note='seed C12-r4-2: the rows are sorted, the oracles that mark '
+             'them are not')
+    add('twin-failed-categories-first-with-their-oracles', 'twin', TREPR,
+        _failed_first(True))
     return out
 
 
